@@ -451,7 +451,9 @@ class Interp:
             return v is not None
         if k == "fn":
             self.fn_counter += 1
-            return MFunc(e[1], e[2], e[3], env.snapshot(), label=None)
+            f = MFunc(e[1], e[2], e[3], env.snapshot(), label=None)
+            f.free = free_vars(e)
+            return f
         raise ValueError(e)
 
     def call(self, f, argv, node):
@@ -480,6 +482,108 @@ class Interp:
     def method(self, r, name, argv, node):
         from . import builtins_model
         return builtins_model.method(self, r, name, argv, node)
+
+
+def free_vars(fn):
+    """names a function literal uses but does not bind itself (params, locals, loop counters), transitively
+    through nested function literals"""
+    bound = set(n for n, _ in fn[1])
+    used = set()
+
+    def ex(e):
+        k = e[0]
+        if k == "var":
+            used.add(e[1])
+        elif k in ("lit", "nil", "raw"):
+            pass
+        elif k == "bin":
+            ex(e[2]); ex(e[3])
+        elif k in ("neg", "not", "get", "paren"):
+            ex(e[1])
+        elif k == "call":
+            ex(e[1])
+            for a in e[2]:
+                ex(a)
+        elif k in ("selfcall",):
+            for a in e[1]:
+                ex(a)
+        elif k == "new":
+            used.add(e[1])
+            for a in e[2]:
+                ex(a)
+        elif k == "mcall":
+            ex(e[1])
+            for a in e[3]:
+                ex(a)
+        elif k == "index":
+            ex(e[1]); ex(e[2])
+        elif k == "field":
+            ex(e[1])
+        elif k == "list":
+            for a in e[1]:
+                ex(a)
+        elif k == "map":
+            for a, b in e[3]:
+                ex(a); ex(b)
+        elif k == "or":
+            ex(e[1]); ex(e[2])
+        elif k in ("unwrap", "unwrap_stmt"):
+            used.add(e[1]); ex(e[2])
+        elif k == "fn":
+            used.update(free_vars(e))
+        else:
+            raise ValueError(e)
+
+    def st(s):
+        k = s[0]
+        if k == "decl":
+            ex(s[3])
+            fl = s[4] if len(s) > 4 and s[4] else ()
+            if "modify" in fl:
+                used.add(s[1])
+            else:
+                bound.add(s[1])
+        elif k in ("print", "assert", "expr"):
+            ex(s[1])
+        elif k == "return":
+            if s[1] is not None:
+                ex(s[1])
+        elif k == "if":
+            ex(s[1])
+            for x in s[2]:
+                st(x)
+            e = s[3]
+            if isinstance(e, tuple) and e and e[0] == "if":
+                st(e)
+            elif e:
+                for x in e:
+                    st(x)
+        elif k == "while":
+            ex(s[1])
+            for x in s[2]:
+                st(x)
+        elif k == "from":
+            ex(s[1]); ex(s[2])
+            if s[4] is not None:
+                ex(s[4])
+            if s[5] is not None:
+                bound.add(s[5])
+            for x in s[6]:
+                st(x)
+        elif k == "opassign":
+            ex(s[1]); ex(s[3])
+        elif k == "seti":
+            ex(s[1]); ex(s[2]); ex(s[3])
+        elif k == "setf":
+            ex(s[1]); ex(s[3])
+        elif k in ("break", "continue", "rawstmt", "class"):
+            pass
+        else:
+            raise ValueError(s)
+
+    for x in fn[3]:
+        st(x)
+    return used - bound - {"self"}
 
 
 def key_of(v):
